@@ -1,7 +1,9 @@
 //! C12 - the dirty bit brackets structural changes; clean unmount restores it
-use super::hist::HistProp;
-use crate::gen::{GenCfg, K};
-use crate::ops::{Aspect, RunCfg, Trace};
+use super::hist::{self, HistProp};
+use crate::gen::{Case, GenCfg, K};
+use crate::ops::{Aspect, Op, RunCfg, Trace};
+use crate::run::{self, Block, Report, Tier};
+use crate::vol::VolCfg;
 
 fn nontrivial(t: &Trace) -> bool {
     t.has("mutation") && (t.has("abandoned_mount_reports_dirty") || t.has("remount") || t.has("remount_by_drop"))
@@ -30,4 +32,97 @@ pub fn prop() -> HistProp {
         thorough_cases: 150000,
         assumptions: vec!["a write-back of timestamps alone is not a structural change"],
     }
+}
+
+/// populate, unmount cleanly, then - in a fresh session in which nothing else has happened - exactly one mutating
+/// operation of each kind, followed by handle drops; the status byte is judged at every call boundary
+fn first_mutation_scripts(cs: u32) -> Vec<(&'static str, Vec<Op>)> {
+    let of = |p: &str, k: u8| Op::OpenFile { via: 0, path: p.into(), keep: k };
+    let seek = |o: i64| Op::Seek { h: 0, whence: 0, off: o };
+    vec![
+        ("truncate_inside_last_cluster", vec![of("two clusters.bin", 1), seek(cs as i64 + 7), Op::Truncate { h: 0 }, Op::CloseFile { h: 0 }]),
+        ("truncate_inside_only_cluster", vec![of("small.txt", 1), seek(3), Op::Truncate { h: 0 }, Op::CloseFile { h: 0 }]),
+        ("truncate_at_cluster_boundary", vec![of("two clusters.bin", 1), seek(cs as i64), Op::Truncate { h: 0 }, Op::CloseFile { h: 0 }]),
+        ("truncate_to_zero", vec![of("two clusters.bin", 1), Op::Truncate { h: 0 }, Op::CloseFile { h: 0 }]),
+        ("truncate_at_end_changes_nothing", vec![of("small.txt", 1), Op::Seek { h: 0, whence: 2, off: 0 }, Op::Truncate { h: 0 }, Op::CloseFile { h: 0 }]),
+        ("overwrite_in_place", vec![of("two clusters.bin", 1), seek(5), Op::Write { h: 0, len: 9, seed: 3 }, Op::CloseFile { h: 0 }]),
+        ("append_inside_cluster", vec![of("small.txt", 1), Op::Seek { h: 0, whence: 2, off: 0 }, Op::Write { h: 0, len: 4, seed: 4 }, Op::Flush { h: 0 }]),
+        ("append_new_cluster", vec![of("two clusters.bin", 1), Op::Seek { h: 0, whence: 2, off: 0 }, Op::Write { h: 0, len: cs, seed: 5 }, Op::CloseFile { h: 0 }]),
+        ("write_to_empty_file", vec![of("empty", 1), Op::Write { h: 0, len: 1, seed: 6 }, Op::CloseFile { h: 0 }]),
+        ("set_times_only_is_not_structural", vec![of("small.txt", 1), Op::SetTimes { h: 0, which: 1, ms: 700_000_000_000 }, Op::CloseFile { h: 0 }]),
+        ("read_only", vec![of("small.txt", 1), Op::Read { h: 0, len: 100 }, Op::CloseFile { h: 0 }, Op::Stats, Op::List { via: 0 }]),
+        ("create_in_root", vec![Op::CreateFile { via: 0, path: "n".into(), keep: 0 }]),
+        ("create_long_name_in_subdir", vec![Op::CreateFile { via: 0, path: "sub/a new file with a long name.txt".into(), keep: 0 }]),
+        ("create_existing_opens_only", vec![Op::CreateFile { via: 0, path: "small.txt".into(), keep: 0 }]),
+        ("mkdir_root", vec![Op::CreateDir { via: 0, path: "nd".into(), keep: 0 }]),
+        ("mkdir_sub", vec![Op::CreateDir { via: 0, path: "sub/nd".into(), keep: 0 }]),
+        ("remove_file", vec![Op::Remove { via: 0, path: "small.txt".into() }]),
+        ("remove_empty_file", vec![Op::Remove { via: 0, path: "empty".into() }]),
+        ("remove_dir", vec![Op::Remove { via: 0, path: "sub/inner".into() }]),
+        ("rename_in_place", vec![Op::Rename { via: 0, src: "small.txt".into(), dvia: 0, dst: "tiny.txt".into() }]),
+        ("move_file", vec![Op::Rename { via: 0, src: "small.txt".into(), dvia: 0, dst: "sub/small.txt".into() }]),
+        ("move_dir", vec![Op::Rename { via: 0, src: "sub/inner".into(), dvia: 0, dst: "inner".into() }]),
+        ("failed_remove_changes_nothing", vec![Op::Remove { via: 0, path: "sub".into() }, Op::Remove { via: 0, path: "missing".into() }]),
+        ("failed_create_invalid_name", vec![Op::CreateFile { via: 0, path: "a:b".into(), keep: 0 }, Op::CreateDir { via: 0, path: "x*y".into(), keep: 0 }]),
+    ]
+}
+
+fn populate_ops(cs: u32) -> Vec<Op> {
+    vec![
+        Op::CreateDir { via: 0, path: "sub".into(), keep: 0 },
+        Op::CreateDir { via: 0, path: "sub/inner".into(), keep: 0 },
+        Op::CreateFile { via: 0, path: "small.txt".into(), keep: 1 },
+        Op::Write { h: 0, len: 10, seed: 1 },
+        Op::CloseFile { h: 0 },
+        Op::CreateFile { via: 0, path: "two clusters.bin".into(), keep: 1 },
+        Op::Write { h: 0, len: cs, seed: 2 },
+        Op::Write { h: 0, len: 40, seed: 2 },
+        Op::CloseFile { h: 0 },
+        Op::CreateFile { via: 0, path: "empty".into(), keep: 0 },
+        Op::Remount { how: 0 },
+    ]
+}
+
+pub fn run(tier: Tier, seed: u64) -> i32 {
+    let hp = prop();
+    let mut rep = Report::new(hp.id, tier, seed, hp.level, hp.rule);
+    rep.rule.push_str("; plus scripted first mutations: on a populated, cleanly unmounted volume of every width and every initial status byte, each of 24 single operations (truncate inside the last cluster / at a boundary / to zero / at the end, overwrite, append, write to an empty file, timestamps only, read only, create, mkdir, remove, rename, move, failing calls) as the only thing a fresh session does");
+    for a in &hp.assumptions {
+        rep.assume(a);
+    }
+    let kb = hist::known_block(&hp, &mut rep);
+    rep.add(kb);
+    rep.add(hist::regress_block(&hp));
+    let mut vols: Vec<VolCfg> = Vec::new();
+    for p in [1usize, 3, 5, 8, 12] {
+        for st in [0u8, 1, 2, 3] {
+            let mut v = VolCfg::from_preset(p);
+            v.status0 = st;
+            vols.push(v);
+        }
+    }
+    for g in [0usize, 5, 6] {
+        vols.push(VolCfg::from_gen_preset(g));
+    }
+    let hp_ref = &hp;
+    let n_scripts = first_mutation_scripts(512).len();
+    let mut b: Block = run::run_indexed("scripted_first_mutations", (vols.len() * n_scripts) as u64, |i, blk| {
+        let v = &vols[i as usize / n_scripts];
+        let cs = v.cluster_size();
+        let (name, script) = first_mutation_scripts(cs).swap_remove(i as usize % n_scripts);
+        let mut ops = populate_ops(cs);
+        ops.extend(script);
+        let case = Case { vol: v.clone(), ops };
+        let mut out = hist::eval_case(hp_ref, &case);
+        out.nontrivial = true;
+        out.hash = run::hash_str(&format!("{}|{:?}", name, v));
+        blk.record(&out, || serde_json::json!({"script": name, "vol": v}));
+        out.violation.map(|m| run::Failure { message: format!("first mutation '{}': {}", name, m), case: serde_json::to_value(&case).unwrap(), kind: "history".into() })
+    });
+    b.exhaustive = true;
+    rep.add(b);
+    if !rep.failed() {
+        rep.add(hist::random_block(&hp, "random_histories", seed, tier.pick(hp.quick_cases, hp.thorough_cases)));
+    }
+    rep.finish()
 }
